@@ -10,7 +10,9 @@ PROP = "C07"
 def cases(tier, seed):
     rnd = random.Random(seed)
     n = 600 if tier == "quick" else 12000
-    return [dict(src=s, family="expressions") for s in gen.expr_cases(rnd, n)]
+    out = [dict(src=s, family="expressions") for s in gen.expr_cases(rnd, n)]
+    out += [dict(src=s, family="arrays") for s in gen.array_cases(rnd, 300 if tier == "quick" else 5000)]
+    return out
 
 
 def classify(run, i, model):
